@@ -81,3 +81,37 @@ int msync(void *addr, size_t len, int flags) {
     if (on("WALRUS_FAULT_FSYNC")) { errno = EIO; return -1; }
     return real(addr, len, flags);
 }
+
+/* crash points (process-crash model: completed syscalls persist):
+ *   WALRUS_CRASH_PWRITE=<K>  the process _exit(99)s instead of performing its (K+1)-th pwrite/pwrite64 after the variable was set
+ *   WALRUS_FAULT_URING=1     io_uring_setup fails with ENOSYS (the engine then takes its portable path)                         */
+#include <unistd.h>
+#include <sys/syscall.h>
+static void crash_point(void) {
+    static char last[32]; static long seen;
+    const char *v = getenv("WALRUS_CRASH_PWRITE");
+    if (!v) { last[0] = 0; return; }
+    if (strncmp(last, v, 31) != 0) { strncpy(last, v, 31); seen = 0; }
+    if (seen++ >= atol(v)) _exit(99);
+}
+ssize_t pwrite(int fd, const void *buf, size_t n, off_t off) {
+    static ssize_t (*real)(int, const void *, size_t, off_t) = 0;
+    if (!real) real = dlsym(RTLD_NEXT, "pwrite");
+    crash_point();
+    return real(fd, buf, n, off);
+}
+ssize_t pwrite64(int fd, const void *buf, size_t n, off64_t off) {
+    static ssize_t (*real)(int, const void *, size_t, off64_t) = 0;
+    if (!real) real = dlsym(RTLD_NEXT, "pwrite64");
+    crash_point();
+    return real(fd, buf, n, off);
+}
+long syscall(long nr, ...) {
+    static long (*real)(long, ...) = 0;
+    if (!real) real = dlsym(RTLD_NEXT, "syscall");
+    va_list ap; va_start(ap, nr);
+    long a = va_arg(ap, long), b = va_arg(ap, long), c = va_arg(ap, long), d = va_arg(ap, long), e = va_arg(ap, long), f = va_arg(ap, long);
+    va_end(ap);
+    if (nr == 425 /* io_uring_setup */) { const char *v = getenv("WALRUS_FAULT_URING"); if (v && v[0] == '1') { errno = ENOSYS; return -1; } }
+    return real(nr, a, b, c, d, e, f);
+}
